@@ -11,8 +11,8 @@ from vlib.core import Info, SubCheck, Violation, require
 PROPERTY = "C17"
 LEVEL = "exploration"
 RULE = (
-    "exhaustive: ALL histories of length <=4 (quick) / <=5 (thorough) over the alphabet {update_dm(v): v in {dm0, "
-    "dm0+-D1, dm0+D2, dm0+D3 (many turns), dm0+d (sub-bin)}} u {update_period(p): p in {p0, p0(1+e1), p0(1-e2), p0(1+tiny)}} on fixed cubes whose every profile is a "
+    "exhaustive: ALL histories of length <=4 (thorough: <=5 on the first cube) over the alphabet {update_dm(v): v in {dm0, "
+    "dm0+-D1, dm0+D2, dm0+D3 (many turns), dm0+d (sub-bin)}} u {update_period(p): p in {p0, p0(1+e1), p0(1-e2), p0(1+tiny), p0(1+E) (hundreds of bins)}} on fixed cubes whose every profile is a "
     "permutation of distinct values (so a rotation is identifiable) and whose band/tobs make the shifts non-zero; "
     "random: Hypothesis cubes (nints 1-5, nbands 1-6, nbins 8-64) x histories of <=30 updates with arbitrary targets. "
     "After every step: .dm/.period = last value set; every profile is a rotation of its original; the cube equals a "
@@ -64,7 +64,8 @@ def targets(spec):
     d3 = 150.45 * (p0 / nbins) / (K * span)  # many turns: exposes any dependence of the DM shift on the current period
     d0 = 0.08 * (p0 / nbins) / (K * span)  # sub-bin change: every sub-band shift rounds to zero although dm != dm0
     dms = [dm0, dm0 + d1, dm0 - d1, dm0 + d2, dm0 + d3, dm0 + d0]
-    ps = [p0, p0 * (1 + e1), p0 * (1 - e2), p0 * (1 + 0.02 * e1)]
+    e3 = 400.3 * p0 / (tobs * nbins)  # hundreds of bins of drift: exposes any dependence on the current period
+    ps = [p0, p0 * (1 + e1), p0 * (1 - e2), p0 * (1 + 0.02 * e1), p0 * (1 + e3)]
     return dms, ps
 
 
@@ -185,11 +186,11 @@ FIXED_CUBES = [
 
 
 def enum_histories(tier):
-    depth = 4 if tier == "quick" else 5
-    cubes = FIXED_CUBES[:3] if tier == "quick" else FIXED_CUBES
+    cubes = FIXED_CUBES[:2] if tier == "quick" else FIXED_CUBES
     for ci, spec in enumerate(cubes):
         dms, ps = targets(spec)
         alpha = [("dm", v) for v in dms] + [("p", v) for v in ps]
+        depth = 4 if (tier == "quick" or ci > 0) else 5
         for L in range(1, depth + 1):
             for seq in itertools.product(range(len(alpha)), repeat=L):
                 yield {"cube": ci, "ops": list(seq)}
